@@ -1,11 +1,58 @@
-import PyresampleModel.Model.Core
+import PyresampleModel.Model.Compact
 
 /-
-  C02 — model (stub: not built yet).
+  C02 — nearest-neighbour resampling: validity filters, compaction of the valid sources, the
+  `index == n_valid ⇒ fill` rule, scatter into the full target.  The kd-tree query result is data.
 -/
 namespace PyresampleModel.C02
 
+/-- `(lon >= -180) & (lon <= 180) & (lat <= 90) & (lat >= -90)`; `none` = NaN / ±inf (all comparisons False) -/
+def validCoord (lon lat : Option Rat) : Bool :=
+  match lon, lat with
+  | some lo, some la => decide (-180 ≤ lo) && decide (lo ≤ 180) && decide (la ≤ 90) && decide (-90 ≤ la)
+  | _, _ => false
+
+/-- `_extract_resample_result`, `resample_type == 'nn'`: `index == valid_input_size` ⇒ fill, else gather
+from the compacted data -/
+def gatherNN {α} (newData : List α) (nValid : Nat) (fill : α) (idx : List Nat) : List α :=
+  idx.map (fun i => if i = nValid then fill else newData.getD i fill)
+
+/-- `get_sample_from_neighbour_info('nn', …)` for one data column -/
+def pipelineNN {α} (srcValid : List Bool) (data : List α) (tgtValid : List Bool) (q : List Nat) (fill : α) : List α :=
+  scatter fill tgtValid (gatherNN (compact data srcValid) (srcValid.count true) fill q)
+
+/-- brute-force reference: index of a nearest valid source within `r2` (first minimum), if any -/
+def nearestValid (srcValid : List Bool) (d2 : Nat → Rat) (r2 : Rat) : Option Nat :=
+  (List.range srcValid.length).foldl (fun best s =>
+    if srcValid.getD s false && decide (d2 s ≤ r2) then
+      match best with
+      | none => some s
+      | some b => if d2 s < d2 b then some s else some b
+    else best) none
+
+/-! ### driver -/
+open Wire
+
+def optRat? (s : String) : Option (Option Rat) :=
+  if s = "nan" then some none else (rat? s).map some
+
 def handle : List String → Option String
+  | "valid" :: rest => do
+    -- valid <n> lon… <n> lat…
+    let (lons, tl) ← takeList optRat? rest
+    let (lats, tl) ← takeList optRat? tl
+    if tl ≠ [] ∨ lons.length ≠ lats.length then none else
+    some (showList showBool ((lons.zip lats).map (fun p => validCoord p.1 p.2)))
+  | "nn" :: fill :: rest => do
+    -- nn <fill> <n> srcValid… <n> data(int)… <m> tgtValid… <k> query-index…
+    let fill ← int? fill
+    let (sv, tl) ← takeList bool? rest
+    let (data, tl) ← takeList int? tl
+    let (tv, tl) ← takeList bool? tl
+    let (q, tl) ← takeList nat? tl
+    if tl ≠ [] ∨ sv.length ≠ data.length then none else
+    if q.length ≠ tv.count true then some "err:shape" else
+    some (showList toString (pipelineNN sv data tv q fill))
   | _ => none
 
 end PyresampleModel.C02
